@@ -128,14 +128,14 @@ Spec == Init /\ [][Next]_vars
 (* The reader (open in read mode + readlines + box + title)                *)
 (***************************************************************************)
 Err == [ok |-> FALSE]
-RECURSIVE ReadRecs(_, _, _, _, _, _)
-ReadRecs(b, pos, n, w, d, hv) ==
-    IF n = 0 THEN [ok |-> TRUE, recs |-> <<>>]
-    ELSE LET line == LineAt(b, pos)
-             p    == IF line = <<>> THEN Err ELSE ParseAtomLine(line, w, d, hv)
-         IN IF ~p.ok THEN Err
-            ELSE LET rest == ReadRecs(b, pos + Len(line), n - 1, w, d, hv)
-                 IN IF ~rest.ok THEN Err ELSE [ok |-> TRUE, recs |-> <<p.rec>> \o rest.recs]
+(* the records: the reader takes natoms consecutive lines; every one must have the length of
+   the first (otherwise it raises), so line i starts at init + (i-1) * size *)
+ReadRecs(b, init, size, n, w, d, hv) ==
+    LET ps == [i \in 1..n |-> LET line == LineAt(b, init + (i - 1) * size)
+                              IN IF Len(line) # size /\ Len(StripNL(line)) # size - 1 THEN Err
+                                 ELSE ParseAtomLine(line, w, d, hv)]
+    IN IF \E i \in 1..n : ~ps[i].ok THEN Err
+       ELSE [ok |-> TRUE, recs |-> [i \in 1..n |-> ps[i].rec]]
 
 Read(b) ==
     LET l1 == LineAt(b, 0)
@@ -148,7 +148,7 @@ Read(b) ==
        ELSE LET size == Len(first)
                 bl   == LineAt(b, init + n * size)
                 pb   == IF bl = <<>> THEN Err ELSE ParseBoxLine(bl)
-                rr   == IF pb.ok THEN ReadRecs(b, init, n, f.w, f.d, f.vel) ELSE Err
+                rr   == IF pb.ok THEN ReadRecs(b, init, size, n, f.w, f.d, f.vel) ELSE Err
             IN IF ~pb.ok \/ ~rr.ok THEN Err
                ELSE [ok |-> TRUE, title |-> l1, natoms |-> n, fmt |-> <<f.w, f.d>>, vel |-> f.vel,
                      recs |-> rr.recs, box |-> pb.box]
